@@ -127,15 +127,20 @@ Granted(o, cc) == \E i \in 1..Len(o.c) : i <= Len(cc) /\ cc[i] \in {"stop", "abo
 AfterBound == 2
 StopTakesEffectO(o, cc) == Granted(o, cc) => ~o.loaded
 StopIsPromptO(o, cc) == Granted(o, cc) => o.after <= AfterBound
+\* at most one executor: under a lockstep schedule no call was admitted as executor while the other thread was parked
+\* inside its own executor section (InvOneExecutor of the model, observed)
+OneExecutorO(o) == o.overlap = 0
 Core(o) == [e |-> o.e, c |-> o.c, state |-> o.state, loaded |-> o.loaded]
 AllObservedAllowed ==
     LET missing == { o \in Observed : Core(o) \notin TLCGet(1) }
         cc == IF CallsC = <<>> THEN <<>> ELSE CallsC
         ineffective == { o \in Observed : ~StopTakesEffectO(o, cc) }
-        late == { o \in Observed : ~StopIsPromptO(o, cc) } IN
+        late == { o \in Observed : ~StopIsPromptO(o, cc) }
+        twoexec == { o \in Observed : ~OneExecutorO(o) } IN
     /\ PrintT(<<"REACHED", Cardinality(TLCGet(1))>>)
     /\ \A o \in missing : PrintT(<<"NOTALLOWED", o>>)        \* mechanism drift (reported as a note)
     /\ \A o \in ineffective : PrintT(<<"NOTEFFECTIVE", o>>)  \* the property oracle
     /\ \A o \in late : PrintT(<<"KEEPSEXECUTING", o>>)       \* the property oracle
-    /\ ineffective = {} /\ late = {}
+    /\ \A o \in twoexec : PrintT(<<"TWOEXECUTORS", o>>)       \* the property oracle
+    /\ ineffective = {} /\ late = {} /\ twoexec = {}
 =============================================================================
